@@ -9,6 +9,7 @@
 From HV Require Import Base.Prelude Base.Outcome Base.Bytes Model.IOProg Proofs.IOProg.
 From HV Require Import Model.CodecSuper Model.CodecOhdr Model.IOProgReader Proofs.IOProgReader Model.IOProgOpen Proofs.IOProgOpen Proofs.IOProgSub.
 From HV Require Import Proofs.IOProgExamples.
+From HV Require Import Model.IOProgSlice Proofs.IOProgSlice Proofs.IOProgSliceExamples.
 
 (* ---- generic: every program of the strict fragment, every file, every cut, every fault pattern ---- *)
 
@@ -128,6 +129,150 @@ Print Assumptions C17_symbol_table_node_strict.
 Theorem C17_group_btree_strict : forall sb addr, strict (p_group_btree sb addr).
 Proof. exact p_group_btree_strict. Qed.
 Print Assumptions C17_group_btree_strict.
+
+(* ---- the remaining read entry points (Model/IOProgSlice.v): hyperslabs, chunk iterator, values behind global heap
+   references.  C17_<entry>_damage: on the file cut to its first n bytes (any n), under ANY pattern of failing and short
+   I/O calls (fl; in particular fault_at k ft: exactly the k-th call), the call returns the intact answer or an error,
+   and does not panic -- unless the intact call itself panics. ---- *)
+
+Theorem C17_read_slice_strict : forall sb, valid_size (spp_lensize sb) = true ->
+  forall fuel addr st cn, strict (api_read_slice sb fuel addr st cn).
+Proof. exact api_read_slice_strict. Qed.
+Print Assumptions C17_read_slice_strict.
+Theorem C17_read_hyperslab_strict : forall sb, valid_size (spp_lensize sb) = true ->
+  forall fuel addr s, strict (api_read_hyperslab sb fuel addr s).
+Proof. exact api_read_hyperslab_strict. Qed.
+Print Assumptions C17_read_hyperslab_strict.
+Theorem C17_chunk_iterator_strict : forall sb, valid_size (spp_lensize sb) = true ->
+  forall fuel addr, strict (api_chunk_iterator sb fuel addr).
+Proof. exact api_chunk_iterator_strict. Qed.
+Print Assumptions C17_chunk_iterator_strict.
+Theorem C17_chunk_iterate_strict : forall sb, valid_size (spp_lensize sb) = true ->
+  forall fuel addr, strict (api_chunk_iterate sb fuel addr).
+Proof. exact api_chunk_iterate_strict. Qed.
+Print Assumptions C17_chunk_iterate_strict.
+Theorem C17_read_strings_strict : forall sb, valid_size (spp_lensize sb) = true ->
+  forall fuel addr, strict (api_read_strings sb fuel addr).
+Proof. exact api_read_strings_strict. Qed.
+Print Assumptions C17_read_strings_strict.
+Theorem C17_read_compound_strict : forall sb, valid_size (spp_lensize sb) = true ->
+  forall fuel addr ctype walk, strict (api_read_compound sb fuel addr ctype walk).
+Proof. exact api_read_compound_strict. Qed.
+Print Assumptions C17_read_compound_strict.
+Theorem C17_read_attribute_strict : forall sb, valid_size (spp_lensize sb) = true ->
+  forall fuel addr walk, strict (api_read_attribute sb fuel addr walk).
+Proof. exact api_read_attribute_strict. Qed.
+Print Assumptions C17_read_attribute_strict.
+
+(* Dataset.ReadSlice(start, count): contiguous single read / row run / per-element reads, chunked: B-tree descent + the chunks the selection touches *)
+Theorem C17_read_slice_damage : forall sb, valid_size (spp_lensize sb) = true -> forall fuel addr st cn,
+  let p := api_read_slice sb fuel addr st cn in
+  forall (f : bytes) (n : nat) (fl : oracle) (c : nat),
+    run0 f p <> Panic ->
+    (fst (run (firstn n f) fl c p) = run0 f p \/ fst (run (firstn n f) fl c p) = Err) /\
+    fst (run (firstn n f) fl c p) <> Panic.
+Proof. exact read_slice_damage. Qed.
+Print Assumptions C17_read_slice_damage.
+(* Dataset.ReadHyperslab(selection) with stride and block *)
+Theorem C17_read_hyperslab_damage : forall sb, valid_size (spp_lensize sb) = true -> forall fuel addr s,
+  let p := api_read_hyperslab sb fuel addr s in
+  forall (f : bytes) (n : nat) (fl : oracle) (c : nat),
+    run0 f p <> Panic ->
+    (fst (run (firstn n f) fl c p) = run0 f p \/ fst (run (firstn n f) fl c p) = Err) /\
+    fst (run (firstn n f) fl c p) <> Panic.
+Proof. exact read_hyperslab_damage. Qed.
+Print Assumptions C17_read_hyperslab_damage.
+(* Dataset.ChunkIterator(): the chunk coordinates collected from the chunk B-tree *)
+Theorem C17_chunk_iterator_damage : forall sb, valid_size (spp_lensize sb) = true -> forall fuel addr,
+  let p := api_chunk_iterator sb fuel addr in
+  forall (f : bytes) (n : nat) (fl : oracle) (c : nat),
+    run0 f p <> Panic ->
+    (fst (run (firstn n f) fl c p) = run0 f p \/ fst (run (firstn n f) fl c p) = Err) /\
+    fst (run (firstn n f) fl c p) <> Panic.
+Proof. exact chunk_iterator_damage. Qed.
+Print Assumptions C17_chunk_iterator_damage.
+(* ChunkIterator.Chunk() of one chunk *)
+Theorem C17_chunk_damage : forall sb, valid_size (spp_lensize sb) = true -> forall fuel addr cd dims coord,
+  let p := api_chunk sb fuel addr cd dims coord in
+  forall (f : bytes) (n : nat) (fl : oracle) (c : nat),
+    run0 f p <> Panic ->
+    (fst (run (firstn n f) fl c p) = run0 f p \/ fst (run (firstn n f) fl c p) = Err) /\
+    fst (run (firstn n f) fl c p) <> Panic.
+Proof. exact chunk_damage. Qed.
+Print Assumptions C17_chunk_damage.
+(* for it.Next() { it.Chunk() }: the iterator and every chunk in turn *)
+Theorem C17_chunk_iterate_damage : forall sb, valid_size (spp_lensize sb) = true -> forall fuel addr,
+  let p := api_chunk_iterate sb fuel addr in
+  forall (f : bytes) (n : nat) (fl : oracle) (c : nat),
+    run0 f p <> Panic ->
+    (fst (run (firstn n f) fl c p) = run0 f p \/ fst (run (firstn n f) fl c p) = Err) /\
+    fst (run (firstn n f) fl c p) <> Panic.
+Proof. exact chunk_iterate_damage. Qed.
+Print Assumptions C17_chunk_iterate_damage.
+(* Dataset.ReadCompound: the raw data, then every variable-length member through the global heap (for every walk over the bytes read) *)
+Theorem C17_read_compound_damage : forall sb, valid_size (spp_lensize sb) = true -> forall fuel addr ctype walk,
+  let p := api_read_compound sb fuel addr ctype walk in
+  forall (f : bytes) (n : nat) (fl : oracle) (c : nat),
+    run0 f p <> Panic ->
+    (fst (run (firstn n f) fl c p) = run0 f p \/ fst (run (firstn n f) fl c p) = Err) /\
+    fst (run (firstn n f) fl c p) <> Panic.
+Proof. exact read_compound_damage. Qed.
+Print Assumptions C17_read_compound_damage.
+(* Dataset.ReadStrings: the datatype check, then the layout dispatch of Read *)
+Theorem C17_read_strings_damage : forall sb, valid_size (spp_lensize sb) = true -> forall fuel addr,
+  let p := api_read_strings sb fuel addr in
+  forall (f : bytes) (n : nat) (fl : oracle) (c : nat),
+    run0 f p <> Panic ->
+    (fst (run (firstn n f) fl c p) = run0 f p \/ fst (run (firstn n f) fl c p) = Err) /\
+    fst (run (firstn n f) fl c p) <> Panic.
+Proof. exact read_strings_damage. Qed.
+Print Assumptions C17_read_strings_damage.
+(* Dataset.ReadAttribute(name): Attributes(), then ReadValue with variable-length strings through the global heap *)
+Theorem C17_read_attribute_damage : forall sb, valid_size (spp_lensize sb) = true -> forall fuel addr walk,
+  let p := api_read_attribute sb fuel addr walk in
+  forall (f : bytes) (n : nat) (fl : oracle) (c : nat),
+    run0 f p <> Panic ->
+    (fst (run (firstn n f) fl c p) = run0 f p \/ fst (run (firstn n f) fl c p) = Err) /\
+    fst (run (firstn n f) fl c p) <> Panic.
+Proof. exact read_attribute_damage. Qed.
+Print Assumptions C17_read_attribute_damage.
+(* Dataset.Read (api_read_raw), in the same form *)
+Theorem C17_read_damage : forall sb, valid_size (spp_lensize sb) = true -> forall fuel addr,
+  let p := api_read_raw sb fuel addr in
+  forall (f : bytes) (n : nat) (fl : oracle) (c : nat),
+    run0 f p <> Panic ->
+    (fst (run (firstn n f) fl c p) = run0 f p \/ fst (run (firstn n f) fl c p) = Err) /\
+    fst (run (firstn n f) fl c p) <> Panic.
+Proof. exact read_raw_damage. Qed.
+Print Assumptions C17_read_damage.
+(* Dataset.Attributes / Group.Attributes, in the same form *)
+Theorem C17_attributes_damage : forall sb, valid_size (spp_lensize sb) = true -> forall fuel addr,
+  let p := api_attributes sb fuel addr in
+  forall (f : bytes) (n : nat) (fl : oracle) (c : nat),
+    run0 f p <> Panic ->
+    (fst (run (firstn n f) fl c p) = run0 f p \/ fst (run (firstn n f) fl c p) = Err) /\
+    fst (run (firstn n f) fl c p) <> Panic.
+Proof. exact attributes_damage. Qed.
+Print Assumptions C17_attributes_damage.
+
+(* non-vacuity on a library-written file with a chunked dataset (Proofs/IOProgSliceExamples.v) *)
+Theorem C17_example_slice_sizes : valid_size (spp_lensize (sb_of ex3)) = true.
+Proof. exact ex3_sizes. Qed.
+Print Assumptions C17_example_slice_sizes.
+Theorem C17_example_slice_every_fault :
+  forallb (fun k => match fst (run ex3 (fault_at k FailIO) 0 (api_read_slice (sb_of ex3) 64 2195 [1; 1] [3; 2])),
+                          fst (run ex3 (fault_at k (ShortRead 0)) 0 (api_read_slice (sb_of ex3) 64 2195 [1; 1] [3; 2])) with
+                    | Err, Err => true | _, _ => false end) (seq 0 21) = true.
+Proof. exact ex3_slice_faults. Qed.
+Print Assumptions C17_example_slice_every_fault.
+Theorem C17_example_slice_cut : run0 (firstn 2576 ex3) (api_read_slice (sb_of ex3) 64 2195 [1; 1] [3; 2]) = Err.
+Proof. exact ex3_slice_cut. Qed.
+Print Assumptions C17_example_slice_cut.
+Theorem C17_example_chunk_iterator :
+  run0 ex3 (api_chunk_iterator (sb_of ex3) 64 2195) =
+  Ok ([[0; 0]; [0; 1]; [0; 2]; [1; 0]; [1; 1]; [1; 2]; [2; 0]; [2; 1]; [2; 2]], [3; 2], [7; 5]).
+Proof. exact ex3_chunk_iterator. Qed.
+Print Assumptions C17_example_chunk_iterator.
 
 (* hdf5.Open with readSignature returning its read error (/repo since 216d529, notes/fixes/c17-read-signature-error.patch):
    open_on f fl c = Open run on the file image f WITH THAT FILE'S SIZE (file.go:86 Stat: the load budget and the root
